@@ -21,7 +21,10 @@ TECHNIQUE = (
     "answered at once; error words = connection error + close), under enumerated split points and interleavings. Usage variations: every "
     "scenario family also runs next to a SECOND live HSFZ connection (own gateway, own traffic, own or the same address pair, start offset) "
     "in the same event loop, each connection's history judged separately; and 2-3 tasks write on ONE connection at the same time while the "
-    "gateway puts data / foreign frames / alive checks / short frames / foreign or wrong acks between the acks, every frame in a segment of its own"
+    "gateway puts data / foreign frames / alive checks / short frames / foreign or wrong acks between the acks, every frame in a segment of its own; "
+    "and in every family a share of the cases are size-range cases: data frames for this and for other address pairs and requests carry payloads from "
+    "the upper part of the legal range (half of them 4093/4094/4095 bytes, 4095 = largest UDS message; the rest 255 .. 4092), delivered in one piece, "
+    "in segments of a fixed maximum size (536 .. 4096), cut at random places or bytewise, followed by further frames"
 )
 LEVEL_TEXT = (
     "Exploration with exhaustive sub-spaces: gateway frame scripts (exhaustive to length 3 quick / 4 thorough over a 9-letter "
@@ -31,11 +34,14 @@ LEVEL_TEXT = (
     "the scripted and random cases are repeated/run as a pair of connections in one event loop (partner drawn from the scripted, random or "
     "concurrent-writer family); a quarter of the random shard's cases are concurrent-writer scripts (2-3 writers, <=3 frames before and <=2 after "
     "each ack, segment boundary forced between all frames / some coalesced / cut inside frames / bytewise, at most one request without ack). "
+    "Payload sizes: 2 .. 48 bytes in the ordinary cases; a fifth of the random and concurrent-writer cases and every fourth scripted case with a data frame are "
+    "repeated/drawn as size-range cases (30/50/60/100 % of their data frames and 35 % of their requests with 255 .. 4095 bytes, weighted to 4090 .. 4095); "
+    "payloads above 4095 bytes are not generated. "
     "A read blocked on the same connection WHILE another task writes is not part of the workload (see ASSUMPTIONS). Held = held on the recorded histories."
 )
 LEVEL_NOTE = "Trusted: frame builders and queue model in vf/checks/c07.py, vf/gateway.py, virtual clock. Status words (0x10/0x11/0x13) may be ignored or end the connection (the statement only fixes error words)."
 RULE = (
-    "cases = (URI parameters incl. ack_timeout, client op program, gateway frame script with delays, segmentation plan); non-trivial = "
+    "cases = (URI parameters incl. ack_timeout, client op program, gateway frame script with delays and payload sizes, segmentation plan); non-trivial = "
     "the script contains a frame other than the awaited one or a split inside a frame; distinct = distinct case tuples; distinct_traces = "
     "distinct (frame label / op result) sequences; a pair of connections in one event loop counts as one case and two histories"
 )
@@ -45,6 +51,7 @@ ASSUMPTIONS = [
     "status control words (0x10, 0x11, 0x13) may either be ignored or terminate the connection with a connection error",
     "after the connection was closed (missing ack, error word) later operations are only required to fail (OSError/ConnectionError), not to hang or succeed",
     "concurrent writers: the ack timeout of a request counts from the moment its data frame is on the stream; every request starts with a unique prefix (an ack echoes only five bytes)",
+    "payload lengths are quantified up to the largest UDS message (4095 bytes, HSFZ length field 4097); longer payloads are not generated",
     "on one connection only writes run concurrently; a read() pending while another task calls write() on the same connection is not driven (reader and ack waiter share one queue)",
 ]
 EXHAUSTIVE = {"quick": False, "thorough": False}
@@ -54,8 +61,40 @@ TOL = 1e-3
 LETTERS = ["D", "F", "A", "S", "K", "X", "T", "E"]  # data for us, foreign data, alive check, short frame, foreign-address ack, wrong-echo ack, status word, error word
 
 
+UDS_MAX = 4095  # largest UDS message (ISO 14229-1 / 12-bit length of ISO-TP): the far end of the payload size range of a data frame
+FAR_END = [4095, 4094, 4093, 4092, 4091, 4090]
+_FILL = bytes(range(256)) * 18
+
+
 def fr(cword: int, body: bytes) -> bytes:
     return struct.pack("!IH", len(body), cword) + body
+
+
+def padded(prefix: bytes, total: int | None) -> bytes:
+    """`prefix` filled up to `total` bytes with a position dependent pattern (a lost, doubled or shifted byte changes the payload)"""
+    if total is None or total <= len(prefix):
+        return prefix
+    o = sum(prefix) & 0xFF
+    return prefix + _FILL[o : o + total - len(prefix)]
+
+
+def size_draw(rng: random.Random) -> int:
+    """payload length of a frame from the upper part of the legal range; half of the draws sit on the last three values"""
+    r = rng.random()
+    if r < 0.5:
+        return rng.choice(FAR_END[:3])
+    if r < 0.65:
+        return rng.choice(FAR_END[3:])
+    return rng.choice([255, 256, 1000, 1024, 2048, 4000, rng.randrange(41, 4090)])
+
+
+def wdata(op: dict[str, Any]) -> bytes:
+    """the request of a write op / of a concurrent writer"""
+    return padded(bytes.fromhex(op["data"]), op.get("size"))
+
+
+def size_bucket(n: int) -> str | None:
+    return str(n) if n >= 4094 else ("4090-4093" if n >= 4090 else ("256-4089" if n >= 256 else None))
 
 
 def split_client(buf: bytearray) -> list[bytes]:
@@ -88,16 +127,23 @@ def required_reach(tier: str) -> dict[str, int]:
             # a second live connection in the same event loop
             "dual.histories": 1000, "dual.operations-overlap": 500, "dual.op-ends-during-skip-hold": 200, "dual.op-ends-during-skip-hold.W": 100,
             "dual.op-ends-during-skip-hold.R": 100, "dual.same-address-pair": 100, "dual.other-address-pair": 100, "dual.family.scripted": 100,
-            "dual.family.random": 100, "dual.family.cw": 100}
+            "dual.family.random": 100, "dual.family.cw": 100,
+            # payload sizes over the legal range up to the largest UDS message (4095 bytes), for data frames of this and of other address pairs and for requests
+            "size.D.4095": 200, "size.D.4094": 200, "size.D.4090-4093": 300, "size.D.256-4089": 300, "size.F.4095": 100, "size.F.4094": 100,
+            "read.delivered.size.4095": 100, "read.delivered.size.4094": 100, "read.delivered.size.4090-4093": 200, "read.delivered.size.256-4089": 200,
+            "read.delivered.after-far-end-frame": 300, "size.ACK-after-far-end-frame": 300, "size.A-after-far-end-frame": 300,
+            "write.acked.size.4095": 50, "write.acked.size.4094": 50, "cw.read.delivered.size.4095": 20, "cw.read.delivered.size.4094": 20,
+            "size.far-end-frame.in-one-segment": 500, "size.far-end-frame.over-several-segments": 500, "size.far-end-frame.bytewise": 50,
+            "size.far-end-frame.split-in-header-or-address": 50}
 
 
 def spec_frame(sc: dict[str, Any], spec: list[Any], req: bytes | None) -> tuple[bytes, str]:
     src, dst = sc["src"], sc["dst"]
     k = spec[0]
     if k == "D":
-        return fr(0x01, bytes([dst, src]) + bytes.fromhex(spec[1])), "D"
+        return fr(0x01, bytes([dst, src]) + padded(bytes.fromhex(spec[1]), spec[2] if len(spec) > 2 else None)), "D"
     if k == "F":
-        return fr(0x01, bytes([spec[2], spec[3]]) + bytes.fromhex(spec[1])), "F"
+        return fr(0x01, bytes([spec[2], spec[3]]) + padded(bytes.fromhex(spec[1]), spec[4] if len(spec) > 4 else None)), "F"
     if k == "A":
         return fr(0x12, bytes.fromhex(spec[1])), "A"
     if k == "S":
@@ -124,10 +170,15 @@ def spec_frame(sc: dict[str, Any], spec: list[Any], req: bytes | None) -> tuple[
 def letter_spec(rng: random.Random, sc: dict[str, Any], letter: str, uid: list[int]) -> list[Any]:
     uid[0] += 1
     tag = uid[0].to_bytes(2, "big").hex()
+    big = sc.get("sizes", 0.0)  # size-range scenarios: share of the data frames (ours and foreign ones) that come from the upper part of the size range
     if letter == "D":
+        if big and rng.random() < big:
+            return ["D", "62f190" + tag, size_draw(rng)]
         return ["D", "62f190" + tag + rng.randbytes(rng.choice([0, 1, 7, 40])).hex()]
     if letter == "F":
         o = rng.choice([(sc["dst"] ^ 1, sc["src"]), (sc["dst"], sc["src"] ^ 1), (sc["src"], sc["dst"])])
+        if big and rng.random() < big:
+            return ["F", "62f190" + tag, o[0] & 0xFF, o[1] & 0xFF, size_draw(rng)]
         return ["F", "62f190" + tag, o[0] & 0xFF, o[1] & 0xFF]
     if letter == "A":
         return ["A", rng.choice(["", "ffff", "ffffcaffee", "00"])]
@@ -181,7 +232,7 @@ async def _drive_seq(sc: dict[str, Any], tr: Any, g: gateway.Gateway, reactions:
         try:
             if op["op"] == "W":
                 reactions.append(op["react"])
-                n = await tr.write(bytes.fromhex(op["data"]), timeout=op.get("timeout"))
+                n = await tr.write(wdata(op), timeout=op.get("timeout"))
                 rec["res"] = ("ok", n)
             elif op["op"] == "R":
                 r = await tr.read(timeout=op["timeout"])
@@ -208,7 +259,7 @@ async def _drive_cw(sc: dict[str, Any], tr: Any, g: gateway.Gateway, reactions: 
             await asyncio.sleep(wr["start"])
         rec: dict[str, Any] = {"op": "W", "i": i, "ts": loop.time()}
         try:
-            rec["res"] = ("ok", await tr.write(bytes.fromhex(wr["data"]), timeout=None))
+            rec["res"] = ("ok", await tr.write(wdata(wr), timeout=None))
         except BaseException as e:
             rec["res"] = _exc(e)
         rec["te"] = loop.time()
@@ -277,12 +328,39 @@ async def run_scenario(sc: dict[str, Any]) -> dict[str, Any]:
     return (await run_group([sc]))[0]
 
 
+def size_reach(ctx: Any, sc: dict[str, Any], out: dict[str, Any]) -> None:
+    """what the history contained along the payload size dimension (what was sent, not what the client made of it)"""
+    seg_ends: set[int] = set()
+    off = 0
+    for _, d in out["fed"]:
+        off += len(d)
+        seg_ends.add(off)
+    off = 0
+    after_max = False
+    for _, f, l in out["g_frames"]:
+        n = len(f) - 8
+        b = size_bucket(n) if l in ("D", "F") else None
+        if b is not None:
+            ctx.reach(f"size.{l}.{b}")
+            inner = sum(1 for e in seg_ends if off < e < off + len(f))
+            if n >= 4090:
+                ctx.reach("size.far-end-frame." + ("bytewise" if sc["bytewise"] else ("in-one-segment" if not inner else "over-several-segments")))
+                if any(off < e < off + 8 for e in seg_ends):
+                    ctx.reach("size.far-end-frame.split-in-header-or-address")
+        elif after_max and l in ("D", "ACK", "A"):
+            ctx.reach(f"size.{l}-after-far-end-frame")
+        if b is not None and n >= 4094:
+            after_max = True
+        off += len(f)
+
+
 def check(ctx: Any, sc: dict[str, Any], out: dict[str, Any], wit: dict[str, Any] | None = None) -> None:
     src, dst = sc["src"], sc["dst"]
     ack_time = sc["ack_timeout"] / 1000
     w = dict(wit) if wit else {"scenario": sc}
     ctx.reach("histories")
     ctx.reach(f"ack_timeout.{sc['ack_timeout']}")
+    size_reach(ctx, sc, out)
     gfr = out["g_frames"]
     cfr = out["c_frames"]
     ctx.trace(tuple(l for _, _, l in gfr) + tuple((o["op"], o["res"][0] if o["res"][0] == "ok" else o["res"][1]) for o in out["ops"]))
@@ -340,7 +418,7 @@ def check(ctx: Any, sc: dict[str, Any], out: dict[str, Any], wit: dict[str, Any]
                 wi += 1
             continue
         if o["op"] == "W":
-            data = bytes.fromhex(spec_op["data"])
+            data = wdata(spec_op)
             want = fr(0x01, bytes([src, dst]) + data)
             if wi >= len(data_out) or data_out[wi][1] != want or abs(data_out[wi][0] - ts) > TOL:
                 ctx.violation("write/request-frame", "write() did not put exactly the data frame tester->ECU on the stream", {**w, "op": o, "want": want})
@@ -408,6 +486,8 @@ def check(ctx: Any, sc: dict[str, Any], out: dict[str, Any], wit: dict[str, Any]
                 closed_at = te
                 continue
             ctx.reach("write.acked")
+            if size_bucket(len(data)):
+                ctx.reach(f"write.acked.size.{size_bucket(len(data))}")
             if res[0] != "ok":
                 phase = "alive-before-ack" if any(ts < it["t"] < t_ack and it["l"] == "A" for it in items) else "plain"
                 ctx.violation(f"write/acked-but-fails/{phase}/{res[1]}", "the gateway acked the message in time but write() failed", {**w, "op": o, "ack_at": t_ack})
@@ -473,7 +553,8 @@ def check(ctx: Any, sc: dict[str, Any], out: dict[str, Any], wit: dict[str, Any]
             # a data frame for us
             if res[0] != "ok":
                 blocked_alive = any(ts < it["t"] < te and it["l"] == "A" for it in items)
-                ctx.violation(f"read/lost-or-stalled/{'alive-while-blocked' if blocked_alive else ('data-before-ack' if data_before_ack else 'other')}/{res[1]}",
+                far_end = any(it["l"] in ("D", "F") and it["t"] <= nxt["t"] and len(it["f"]) - 8 >= 4090 for it in items)
+                ctx.violation(f"read/lost-or-stalled/{'alive-while-blocked' if blocked_alive else ('data-before-ack' if data_before_ack else ('far-end-of-size-range' if far_end else 'other'))}/{res[1]}",
                               "a read failed although an ECU->tester data frame for it had arrived in time", {**w, "op": o, "arrived": nxt["t"]})
                 return
             if res[1] != nxt["f"][8:]:
@@ -486,6 +567,10 @@ def check(ctx: Any, sc: dict[str, Any], out: dict[str, Any], wit: dict[str, Any]
                 return
             nxt["used"] = True
             ctx.reach("read.delivered")
+            if size_bucket(len(res[1])):
+                ctx.reach(f"read.delivered.size.{size_bucket(len(res[1]))}")
+            if any(it["l"] in ("D", "F") and it["t"] < nxt["t"] and len(it["f"]) - 8 >= 4094 for it in items):
+                ctx.reach("read.delivered.after-far-end-frame")
             if abs(te - want_t) > TOL:
                 ctx.violation("read/late-delivery", "a data frame that had arrived was not delivered to the waiting read at once", {**w, "op": o, "arrived": nxt["t"]})
     # alive checks: answered at the same virtual instant with 00000002 0012 00 <src>
@@ -525,12 +610,13 @@ def check_cw(ctx: Any, sc: dict[str, Any], out: dict[str, Any], wit: dict[str, A
     w = dict(wit) if wit else {"scenario": sc}
     ctx.reach("cw.histories")
     ctx.reach(f"ack_timeout.{sc['ack_timeout']}")
+    size_reach(ctx, sc, out)
     gfr, cfr = out["g_frames"], out["c_frames"]
     ctx.trace(("cw",) + tuple(l for _, _, l in gfr) + tuple((o["op"], o["res"][0] if o["res"][0] == "ok" else o["res"][1]) for o in out["ops"]))
     items = [{"t": t, "l": l, "f": f} for t, f, l in gfr]
     wrecs = [o for o in out["ops"] if o["op"] == "W"]
     rrecs = [o for o in out["ops"] if o["op"] == "R"]
-    datas = [bytes.fromhex(x["data"]) for x in sc["writers"]]
+    datas = [wdata(x) for x in sc["writers"]]
     expected = {fr(0x01, bytes([src, dst]) + d): i for i, d in enumerate(datas)}
     sent: dict[int, float] = {}
     for t, f in cfr:
@@ -590,6 +676,8 @@ def check_cw(ctx: Any, sc: dict[str, Any], out: dict[str, Any], wit: dict[str, A
         i, res, te = o["i"], o["res"], o["te"]
         if i in in_time and (closed_at is None or in_time[i] < closed_at - TOL):
             ctx.reach("cw.write.acked")
+            if size_bucket(len(datas[i])):
+                ctx.reach(f"cw.write.acked.size.{size_bucket(len(datas[i]))}")
             if res[0] != "ok":
                 ctx.violation(f"write/concurrent/acked-but-fails/{res[1]}", "with several writers on one connection a write failed although the gateway acked its request within the ack timeout",
                               {**w, "op": o, "sent_at": sent[i], "ack_at": in_time[i]})
@@ -665,6 +753,8 @@ def check_cw(ctx: Any, sc: dict[str, Any], out: dict[str, Any], wit: dict[str, A
             return
         di += 1
         ctx.reach("cw.read.delivered")
+        if size_bucket(len(res[1])):
+            ctx.reach(f"cw.read.delivered.size.{size_bucket(len(res[1]))}")
         if abs(te - max(ts, nxt["t"])) > TOL:
             ctx.violation("read/late-delivery", "a data frame that had arrived was not delivered to the waiting read at once", {**w, "op": o, "arrived": nxt["t"]})
             return
@@ -758,12 +848,42 @@ def reaction(rng: random.Random, sc: dict[str, Any], pre: list[str], ackkind: st
     return r
 
 
-def scripted(rng: random.Random, pre: list[str], ackkind: str, post: list[str], pair: tuple[int, int] | None = None, uid0: int = 0) -> dict[str, Any]:
+def size_range(rng: random.Random, sc: dict[str, Any], share: float) -> None:
+    """makes `sc` a size-range scenario: `share` of its data frames (for this and for other address pairs) and some of its requests carry
+    a payload from the upper part of the legal range, up to the largest UDS message. Must be called before the frames are drawn."""
+    sc["sizes"] = share
+
+
+def size_range_segmentation(rng: random.Random, sc: dict[str, Any], n_frames: int) -> None:
+    """how a stream with frames of several KiB reaches the client: in segments of a fixed maximum size (the normal case on TCP), cut at
+    random places, frame by frame in one piece each, or (rarely, it is costly) byte by byte"""
+    total = 4200 * max(1, n_frames)
+    r = rng.random()
+    if r < 0.45:
+        step = rng.choice([536, 1021, 1448, 1460, 4096])
+        sc["cuts"] = list(range(rng.randrange(1, step + 1), total, step))
+    elif r < 0.7:
+        sc["cuts"] = sorted(rng.sample(range(1, total), rng.randint(1, 12)))
+    elif r < 0.74:
+        sc["bytewise"] = True
+
+
+def big_request(rng: random.Random, sc: dict[str, Any], op: dict[str, Any]) -> None:
+    if sc.get("sizes") and rng.random() < 0.35:
+        op["size"] = size_draw(rng)
+
+
+def scripted(rng: random.Random, pre: list[str], ackkind: str, post: list[str], pair: tuple[int, int] | None = None, uid0: int = 0, sizes: float = 0.0) -> dict[str, Any]:
     sc = base_scenario(rng, pair)
     sc["family"] = "scripted"
+    if sizes:
+        size_range(rng, sc, sizes)
     uid = [uid0]
     nD = sum(1 for l in pre + post if l == "D")
     sc["ops"] = [{"op": "W", "data": rng.choice(["22f190", "3e00", "2e1234aabbccdd", "3101020304", "2e1234aabbccddee"]), "react": reaction(rng, sc, pre, ackkind, post, uid)}]
+    if sizes:
+        big_request(rng, sc, sc["ops"][0])
+        size_range_segmentation(rng, sc, len(pre) + len(post) + 1)
     for _ in range(nD + 1):
         sc["ops"].append({"op": "R", "timeout": 1.0})
     return sc
@@ -772,6 +892,8 @@ def scripted(rng: random.Random, pre: list[str], ackkind: str, post: list[str], 
 def random_scenario(rng: random.Random, pair: tuple[int, int] | None = None, uid0: int = 0) -> dict[str, Any]:
     sc = base_scenario(rng, pair)
     sc["family"] = "random"
+    if rng.random() < 0.2:
+        size_range(rng, sc, rng.choice([0.3, 0.6, 1.0]))
     uid = [uid0]
     ops: list[dict[str, Any]] = []
     pending_d = 0
@@ -781,6 +903,7 @@ def random_scenario(rng: random.Random, pair: tuple[int, int] | None = None, uid
         ackkind = rng.choices(["ack", "none", "late"], weights=[12, 1, 1])[0]
         uid[0] += 1  # every request starts with a unique prefix so that a stray ack echo can never match a later request
         ops.append({"op": "W", "data": rng.choice(["22", "2e", "31"]) + uid[0].to_bytes(2, "big").hex() + rng.randbytes(rng.choice([0, 1, 2, 3, 30])).hex(), "react": reaction(rng, sc, pre, ackkind, post, uid)})
+        big_request(rng, sc, ops[-1])
         pending_d += sum(1 for l in pre + post if l == "D")
         for _ in range(rng.randint(0, 2)):
             if rng.random() < 0.6:
@@ -811,7 +934,9 @@ def random_scenario(rng: random.Random, pair: tuple[int, int] | None = None, uid
         ops.append({"op": "R", "timeout": 0.6})
     sc["ops"] = ops
     r = rng.random()
-    if r < 0.3:
+    if sc.get("sizes") and not sc.get("burst"):
+        size_range_segmentation(rng, sc, sum(len(o.get("react", [])) + len(o.get("arrive", [])) for o in ops))
+    elif r < 0.3:
         sc["cuts"] = sorted(rng.sample(range(1, 300), rng.randint(1, 30)))
     elif r < 0.4:
         sc["bytewise"] = True
@@ -827,6 +952,8 @@ def cw_scenario(rng: random.Random, pair: tuple[int, int] | None = None, uid0: i
     sometimes frames are coalesced, the stream is cut inside frames or delivered bytewise. At most one request stays without ack."""
     sc = base_scenario(rng, pair)
     sc.update({"kind": "cw", "family": "cw", "read_timeout": 1.0})
+    if rng.random() < 0.2:
+        size_range(rng, sc, rng.choice([0.3, 0.6, 1.0]))
     at = sc["ack_timeout"] / 1000
     scale = 1.0 if at >= 1 else 0.5
     uid = [uid0]
@@ -841,6 +968,7 @@ def cw_scenario(rng: random.Random, pair: tuple[int, int] | None = None, uid0: i
         uid[0] += 1  # unique request prefix: an HSFZ ack echoes only the first five request bytes
         data = rng.choice(["22", "2e", "31"]) + uid[0].to_bytes(2, "big").hex() + rng.randbytes(rng.choice([0, 1, 2, 3, 30])).hex()
         writers.append({"data": data, "start": 0.0 if i == 0 else rng.choice([0.0, 0.0, 0.0002, 0.002])})
+        big_request(rng, sc, writers[-1])
         pre = rng.choices(CW_LETTERS, weights=[5, 2, 3, 1, 1, 1], k=rng.choice([0, 1, 1, 2, 3]))
         post = rng.choices(["D", "F", "A", "S"], weights=[5, 2, 2, 1], k=rng.choice([0, 0, 1, 2]))
         r: list[Any] = []
@@ -858,7 +986,9 @@ def cw_scenario(rng: random.Random, pair: tuple[int, int] | None = None, uid0: i
         reacts.append(r)
     sc.update({"writers": writers, "reacts": reacts, "reads": n_d + 1})
     r2 = rng.random()
-    if r2 < 0.15:
+    if sc.get("sizes") and rng.random() < 0.6:
+        size_range_segmentation(rng, sc, sum(len(x) for x in reacts))
+    elif r2 < 0.15:
         sc["cuts"] = sorted(rng.sample(range(1, 200), rng.randint(1, 20)))
     elif r2 < 0.22:
         sc["bytewise"] = True
@@ -903,6 +1033,9 @@ def run(ctx: Any, params: dict[str, Any]) -> None:
                             continue
                         sc = scripted(rng, pre, ackkind, post)
                         out = one(ctx, sc)
+                        if k % 4 == 2 and ("D" in tup or "F" in tup):
+                            # the same script with data frames (and sometimes the request) from the upper part of the payload size range
+                            one(ctx, scripted(rng, pre, ackkind, post, sizes=rng.choice([0.5, 1.0])))
                         if k % 3 == 1:
                             # the same script next to a second live connection (own gateway, own traffic) in the same event loop
                             one(ctx, sc, partner_scenario(rng, sc))
